@@ -18,3 +18,15 @@ Proof. intros H x Hx. apply (all_below_spec 256 p H). exact Hx. Qed.
 
 Lemma sweep128 (p : N -> bool) : all_below 128 p = true -> forall x, x < 128 -> p x = true.
 Proof. intros H x Hx. apply (all_below_spec 128 p H). exact Hx. Qed.
+
+(* the same with a binary counter (no conversion from unary numbers at every step): p on x, x+1, ..., x+n-1 *)
+Fixpoint all_from (n : nat) (x : N) (p : N -> bool) : bool :=
+  match n with O => true | S k => p x && all_from k (x + 1) p end.
+
+Lemma all_from_spec n : forall x p, all_from n x p = true -> forall y, x <= y < x + N.of_nat n -> p y = true.
+Proof.
+  induction n as [|n IH]; intros x p H y Hy; [lia|].
+  cbn [all_from] in H. apply andb_prop in H as [H1 H2].
+  destruct (N.eq_dec y x) as [->|Hne]; [exact H1|].
+  apply (IH (x + 1) p H2). lia.
+Qed.
